@@ -36,11 +36,23 @@ def _unbe(ctx, args, kwargs):
     return _m_int_from_bytes(ctx, [args[0], "big"], {})
 
 
+ZEROS = z3.Function("zeros", z3.IntSort(), z3.SeqSort(z3.IntSort()))
+
+
 def _zeros(ctx, args, kwargs):
+    """zeros(n) for symbolic n: an uninterpreted sequence-valued function with the ground facts
+    zeros(0..3) = literal zero bytes and |zeros(n)| = n -- no path split on the padding residue"""
+    from .values import SBytes, seq_of_elems
     n = args[0]
-    if is_sym(n):
-        n = ctx.concretize_int(n, 16, "zeros(n)")
-    return bytes(n)
+    if not is_sym(n):
+        return bytes(n)
+    if not getattr(ctx, "_zeros_axioms", False):
+        ctx._zeros_axioms = True
+        for k in range(0, 4):
+            ctx.assume_raw(ZEROS(z3.IntVal(k)) == seq_of_elems([z3.IntVal(0)] * k))
+    t = z3.simplify(int_term(n))
+    ctx.assume_raw(z3.Implies(t >= 0, z3.Length(ZEROS(t)) == t))
+    return SBytes(term=ZEROS(t))
 
 
 def _lib_error(ctx, args, kwargs):
